@@ -81,6 +81,13 @@ type hostileMsg struct {
 	Type    uint8
 	Ts      uint32
 	Payload []byte
+	Seq     []seqMsg // if set: a whole side session (own stream name) of well-formed messages in an unusual order
+}
+
+type seqMsg struct {
+	Type    uint8
+	Ts      uint32
+	Payload []byte
 }
 
 // c05Messages generates the hostile messages of case i.
@@ -252,6 +259,77 @@ func c05Messages(r *rand.Rand, i int) []hostileMsg {
 		for k := 0; k < 30; k++ {
 			add("random-large", []uint8{8, 9}[r.Intn(2)], randBytes(100+r.Intn(70000)))
 		}
+		// metadata whose containers are nested up to the 16 MiB message limit (parsed on every
+		// metadata message, under the group lock)
+		for _, unit := range [][]byte{{0x03, 0x00, 0x01, 'a'}, {0x0a, 0, 0, 0, 1}, {0x08, 0, 0, 0, 1, 0x00, 0x01, 'a'}} {
+			for _, levels := range []int{41, 1000, 40001, 3300000} {
+				body := ref.AmfEncodeAll(ref.AmfStr("onMetaData"))
+				if levels%2 == 0 && levels < 3300000 {
+					body = ref.AmfEncodeAll(ref.AmfStr("@setDataFrame"), ref.AmfStr("onMetaData"))
+				}
+				// the chain hangs below a property of the metadata object / ECMA array (the top-level
+				// value itself has to be one of those two to be parsed at all)
+				if levels%3 != 1 {
+					body = append(body, [][]byte{{0x03, 0x00, 0x01, 'a'}, {0x08, 0, 0, 0, 1, 0x00, 0x01, 'a'}}[levels%2]...)
+				}
+				for k := 0; k < levels && len(body) < (16<<20)-64; k++ {
+					body = append(body, unit...)
+				}
+				add("metadata-deep-nesting", 18, body)
+			}
+		}
+		// well-formed messages in unusual orders, each order as a session of its own
+		vf := func(k int, key bool) []byte { return gen.VideoFrame(r, 6, 5000+k, key, 0, 80) }
+		af := func(k int) []byte { return gen.AudioFrame(r, 6, 6000+k, 40) }
+		for _, vsh := range [][]byte{gen.AvcSeqHeader(6, 0), gen.HevcSeqHeader(6, 0, false), gen.HevcSeqHeader(6, 0, true)} {
+			ash := gen.AacSeqHeader(6, 0)
+			var q []seqMsg
+			seq := func(class string) {
+				out = append(out, hostileMsg{Class: "valid-order/" + class, Type: 9, Payload: vsh[:5], Seq: q})
+				q = nil
+			}
+			// headers, a long run of audio, only then the first key frame
+			q = append(q, seqMsg{18, 0, gen.Metadata(6, 0, true)}, seqMsg{9, 0, vsh}, seqMsg{8, 0, ash})
+			for k := 0; k < 40; k++ {
+				q = append(q, seqMsg{8, uint32(k * 23), af(k)})
+			}
+			q = append(q, seqMsg{9, 930, vf(0, true)}, seqMsg{9, 970, vf(1, false)}, seqMsg{8, 980, af(50)})
+			seq("audio-run-before-first-key")
+			// headers, inter frames without any key frame, audio in between
+			q = append(q, seqMsg{9, 0, vsh}, seqMsg{8, 0, ash})
+			for k := 0; k < 25; k++ {
+				q = append(q, seqMsg{9, uint32(k * 40), vf(k, false)})
+				if k%3 == 0 {
+					q = append(q, seqMsg{8, uint32(k*40 + 5), af(k)})
+				}
+			}
+			q = append(q, seqMsg{9, 1000, vf(30, true)}, seqMsg{8, 1010, af(60)})
+			seq("inter-frames-before-first-key")
+			// audio only for a while, video header and key frame late
+			q = append(q, seqMsg{8, 0, ash})
+			for k := 0; k < 40; k++ {
+				q = append(q, seqMsg{8, uint32(k * 23), af(k)})
+			}
+			q = append(q, seqMsg{9, 920, vsh}, seqMsg{9, 920, vf(0, true)}, seqMsg{8, 943, af(41)}, seqMsg{9, 960, vf(1, false)})
+			seq("late-video")
+			// video only for a while, audio header late
+			q = append(q, seqMsg{9, 0, vsh}, seqMsg{9, 0, vf(0, true)})
+			for k := 1; k < 30; k++ {
+				q = append(q, seqMsg{9, uint32(k * 40), vf(k, k%10 == 0)})
+			}
+			q = append(q, seqMsg{8, 1200, ash}, seqMsg{8, 1200, af(0)}, seqMsg{9, 1240, vf(31, false)}, seqMsg{8, 1223, af(1)})
+			seq("late-audio")
+			// frames before any sequence header, headers afterwards
+			q = append(q, seqMsg{8, 0, af(0)}, seqMsg{9, 0, vf(0, true)}, seqMsg{8, 23, af(1)}, seqMsg{9, 40, vf(1, false)}, seqMsg{9, 80, vsh}, seqMsg{8, 80, ash}, seqMsg{9, 80, vf(2, true)}, seqMsg{8, 90, af(2)})
+			seq("frames-before-headers")
+			// timestamps that do not advance at all, then jump
+			q = append(q, seqMsg{9, 500, vsh}, seqMsg{8, 500, ash}, seqMsg{9, 500, vf(0, true)})
+			for k := 0; k < 60; k++ {
+				q = append(q, seqMsg{8, 500, af(k)}, seqMsg{9, 500, vf(k+1, false)})
+			}
+			q = append(q, seqMsg{9, 5000, vf(70, true)}, seqMsg{8, 5000, af(70)})
+			seq("timestamps-stand-still")
+		}
 	case 5:
 		// valid-looking frames with hostile timestamps (filled in by the caller from Class)
 		for _, ts := range []uint32{0, 1, 0xfffffe, 0xffffff, 0x1000000, 0x1000001, 0x7fffffff, 0x80000000, 0xfffffffe, 0xffffffff, 5, 0x80000005, 100} {
@@ -342,7 +420,7 @@ func init() {
 		ID:          "C05",
 		NumCases:    func(tier string, seed int64) int { return c05Sizes(tier) },
 		CaseTimeout: func(string) time.Duration { return 10 * time.Minute },
-		Rule: "one sub-input = one well-framed audio/video/metadata message with a hostile payload sent by an accepted reference publisher to the whole in-process server under one of 8 output configurations (all outputs, gop 0/1/2, dummy audio, single outputs, merge write): all 256 one-byte payloads × audio/video, 2..12-byte payloads over the codec-relevant first bytes × packet types, AVC/HEVC(classic+enhanced)/AAC sequence headers truncated at every offset and with corrupted inner lengths, all 2-byte ASCs, enhanced-RTMP headers with other fourccs, NAL length fields that lie (0, beyond the end, 2^31, 2^32−1), zero-length NALs, unknown codec ids, non-AMF metadata, large random payloads, extreme and backward timestamps, bit-flipped valid frames, codec switches mid-stream. honest tiny NAL units of every H.264/H.265 type code incl. the RTP aggregation/fragmentation codes; RTMP/FLV/TS joiners attach between messages, RTSP (TCP and UDP) subscribers re-join mid-GOP every 10 messages so that the wait-for-key-frame path inspects the hostile NALs. " +
+		Rule: "one sub-input = one well-framed audio/video/metadata message with a hostile payload sent by an accepted reference publisher to the whole in-process server under one of 8 output configurations (all outputs, gop 0/1/2, dummy audio, single outputs, merge write): all 256 one-byte payloads × audio/video, 2..12-byte payloads over the codec-relevant first bytes × packet types, AVC/HEVC(classic+enhanced)/AAC sequence headers truncated at every offset and with corrupted inner lengths, all 2-byte ASCs, enhanced-RTMP headers with other fourccs, NAL length fields that lie (0, beyond the end, 2^31, 2^32−1), zero-length NALs, unknown codec ids, non-AMF metadata, large random payloads, extreme and backward timestamps, bit-flipped valid frames, codec switches mid-stream, metadata nested up to the 16 MiB message limit, and whole side sessions of well-formed messages in unusual orders (long audio run before the first key frame, inter frames before any key frame, late video, late audio, frames before headers, timestamps that stand still) × AVC / HEVC / enhanced HEVC. honest tiny NAL units of every H.264/H.265 type code incl. the RTP aggregation/fragmentation codes; RTMP/FLV/TS joiners attach between messages, RTSP (TCP and UDP) subscribers re-join mid-GOP every 10 messages so that the wait-for-key-frame path inspects the hostile NALs. " +
 			"monitors: process liveness (crash signature = panic text + innermost lal frame; driver resumes after the crashing message), a marker frame after each hostile message must reach a pre-attached FLV witness (else, with the publisher connection still open, the stream is stalled), amplification counter (tags delivered between consecutive markers), canary stream on another name after each case. cell = config cell × input class.",
 		Assumptions: []string{"lal closing the publisher's connection on an uninterpretable payload is allowed (the case reconnects)", "amplification bound: 8 + size/100 deliveries per input message, or 10 000 when dummy audio is on (intended gap filling)"},
 		MinCells: 20,
@@ -492,6 +570,33 @@ func c05Run(c *fw.Ctx, i int) {
 				if lc, err := startConsumer(s, kd, ss.name); err == nil {
 					joiners = append(joiners, lc)
 				}
+			}
+		}
+		if hm.Seq != nil {
+			// the side session: its own publisher and name, joiners attached from its start
+			sideName := fmt.Sprintf("%s_seq%d", name, k)
+			var sideJoin []*liveConsumer
+			for _, kd := range []string{"rtmp", "flv", "ts"} {
+				if (kd == "flv" && !cell.Conf.Flv) || (kd == "ts" && !cell.Conf.Ts) {
+					continue
+				}
+				if lc, err := startConsumer(s, kd, sideName); err == nil {
+					sideJoin = append(sideJoin, lc)
+				}
+			}
+			if sp, err := ref.StartRtmpPublisher(s.RtmpAddr(), "live", sideName, 5*time.Second); err == nil {
+				sp.RC.SetChunkSize(4096)
+				for _, m := range hm.Seq {
+					if sp.RC.Send(ref.RtmpMsg{Csid: csidFor(m.Type), TypeID: m.Type, StreamID: sp.Msid, Ts: m.Ts, Payload: m.Payload}, 0) != nil {
+						break
+					}
+				}
+				time.Sleep(30 * time.Millisecond)
+				sp.Close()
+				c.Count("valid_order_sessions", 1)
+			}
+			for _, lc := range sideJoin {
+				lc.close()
 			}
 		}
 		hookBefore := -1
